@@ -82,6 +82,10 @@ def run(chk: Check, proj: Project) -> None:
     s5(chk, proj, w)
     s6(chk, proj, w)
     s7(chk, proj, w)
+    from . import C06 as _C06
+
+    chk.borrow("S8", "Component.id reports the render that is RUNNING: the metadata entry pushed for a render is popped also when the render's body raises (try / finally around the yield) - otherwise a failed inner render of the same instance (a tree component that renders itself for its children and skips a failing child) leaves its entry on top, and the surviving outer render reports the failed render's id while its root elements carry its own (shared with C06-S2a)",
+               lambda sub: _C06.s2a_generators(sub, proj, w), only=lambda o: "_with_metadata" in o.construct)
 
 
 def s7(chk: Check, proj: Project, w) -> None:
